@@ -187,7 +187,7 @@ func cmdRun(args []string) int {
 				}
 			}
 			// one sample per harness for translator validation (chosen by seed)
-			if len(r.Samples) > 0 && r.Status != "inconclusive" {
+			if len(r.Samples) > 0 && r.Status == "ok" {
 				s := r.Samples[seed%len(r.Samples)]
 				p, err := eng.WriteReplay(tmpSamples, &eng.ReplayFile{Harness: r.Name, Property: prop, Tier: *tier, Values: sampleRaw(s), Expect: "cover:" + s.Cover})
 				if err == nil {
